@@ -171,7 +171,21 @@ func init() {
 	m1 := ref.EdEncode(ref.EdPoint{X: big.NewInt(0), Y: new(big.Int).Sub(ref.EdP, big.NewInt(1))})
 	m1[31] |= 0x80
 	nonCanonicalA = append(nonCanonicalA, m1)
+	canon := make([]byte, 32)
+	canon[0] = 1
+	identityEncodings = [][]byte{canon}
+	for _, e := range nonCanonicalA {
+		if p, ok := ref.EdDecode(e); ok && p.X.Sign() == 0 && p.Y.Cmp(big.NewInt(1)) == 0 {
+			identityEncodings = append(identityEncodings, e)
+		}
+	}
+	if len(identityEncodings) < 4 {
+		panic("expected the canonical and three non-canonical encodings of the identity")
+	}
 }
+
+// every 32-byte string that decodes to the identity (0, 1): the canonical one and the non-canonical ones (filled by init)
+var identityEncodings [][]byte
 
 func leAdd(sBytes []byte, v *big.Int) ([]byte, bool) {
 	x := new(big.Int).Add(ref.EdScalarIntRaw(sBytes), v)
@@ -191,7 +205,7 @@ func TestVerifyDifferential(t *testing.T) {
 		sig := stded.Sign(sk, msg)
 		R, S := append([]byte{}, sig[:32]...), append([]byte{}, sig[32:]...)
 		class := gen.Pick(t, []string{"honest", "S+kL", "S-topbits", "S-special", "R-smallorder", "A-smallorder", "A-noncanonical", "R-noncanonical",
-			"A-random", "R-random", "forged-identity-like-key", "other-message", "bitflip", "length", "S-random", "A-smallorder-random-sig"}, "class")
+			"A-random", "R-random", "forged-identity-like-key", "other-message", "bitflip", "length", "S-random", "A-smallorder-random-sig", "forged-noncanonical-R"}, "class")
 		switch class {
 		case "S+kL":
 			k := int64(gen.UniformRange(t, 1, 16, "k"))
@@ -230,6 +244,12 @@ func TestVerifyDifferential(t *testing.T) {
 			A = append([]byte{}, gen.Pick(t, append(append([][]byte{}, smallOrder...), nonCanonicalA...), "key")...)
 			S = ref.EdScalarLE(rapid.SliceOfN(rapid.Byte(), 32, 32).Draw(t, "S"))
 			R = ref.EdEncode(ref.EdScalarMult(ref.EdScalarInt(S), ref.EdBase()))
+		case "forged-noncanonical-R":
+			// [S]B = R + [k]A holds with A = identity, S = 0, R = identity: valid when R is the canonical encoding;
+			// the standard library compares R's BYTES, so every non-canonical encoding of the identity must be rejected
+			A = append([]byte{}, gen.Pick(t, identityEncodings, "Aenc")...)
+			R = append([]byte{}, gen.Pick(t, identityEncodings, "Renc")...)
+			S = make([]byte, 32)
 		case "other-message":
 			msg = append(append([]byte{}, msg...), 0)
 		case "bitflip":
